@@ -512,13 +512,13 @@ def h_keepalive_thread(ctx, ticks):
     outstanding, closed_at = [], None
     try:
         t.start()
-        idle.wait(5)
+        idle.wait(60)
         for k in range(ticks):
             answered = ctx.flag("ping%d_answered" % k)
             n_sent, mark = len(w.sent_nodes), len(w.log)
             idle.clear()
             gate.release()                     # one period passes
-            for _ in range(500):
+            for _ in range(6000):
                 if idle.is_set() or not t.is_alive():
                     break
                 t.join(0.01)
@@ -541,7 +541,7 @@ def h_keepalive_thread(ctx, ticks):
         stop["now"] = True
         for _ in range(4):
             gate.release()
-        t.join(3)
+        t.join(30)
         iqmod.time = old
     obs.append(("the keep-alive thread ends with the connection / the harness (%s)" % ("alive" if t.is_alive() else "ended"), not t.is_alive()))
     return obs
@@ -750,7 +750,7 @@ def h_network_blocking(ctx, n):
             n0 = len(w.sockets)
             t.start()
             # wait until the reader blocks in recv (connection up) or the call has returned (attempt over)
-            for _ in range(400):
+            for _ in range(6000):
                 if not t.is_alive() or (len(w.sockets) > n0 and w.sockets[-1].idle.is_set()):
                     break
                 t.join(0.01)
@@ -758,7 +758,7 @@ def h_network_blocking(ctx, n):
             return t, err
 
         def settle(t, sock):
-            for _ in range(400):
+            for _ in range(6000):
                 if not t.is_alive() or sock.idle.is_set():
                     break
                 t.join(0.01)
@@ -792,9 +792,9 @@ def h_network_blocking(ctx, n):
                 sock.idle.clear()
                 st.broadcastEvent(L.YowLayerEvent(YowNetworkLayer.EVENT_STATE_DISCONNECT))
                 settle(t, sock)
-                t.join(2)
+                t.join(30)
                 run_loop(st)
-            t.join(2)
+            t.join(30)
             obs.append((tag + ": however it ends, the connect call returns, the connection is announced down exactly once and the layer is disconnected (%s, alive=%s, connected=%s, error=%r)"
                         % (log[mark:], t.is_alive(), net.connected, err.get("e")), not t.is_alive() and log[mark:].count("down") == 1 and not net.connected))
         obs.append(("nothing was ever written to a socket that is closed or not connected (%s)" % w.violations[:1], not w.violations))
